@@ -189,6 +189,19 @@ Theorem C07_bytes_chain_any_output_buffer_from_input_sizes : forall pre ops regs
 Proof. exact run_bp_enc_from_input_sizes. Qed.
 Print Assumptions C07_bytes_chain_any_output_buffer_from_input_sizes.
 
+Theorem C07_bytes_chain_at_every_step_from_input_sizes : forall ops1 ops2 regs_t, Inv regs_t ->
+  chain_budget regs_t (ops1 ++ ops2) < 67108864 -> run_b (map enc regs_t) ops1 = map enc (run3 regs_t ops1).
+Proof. exact run_b_enc_every_step_from_input_sizes. Qed.
+Print Assumptions C07_bytes_chain_at_every_step_from_input_sizes.
+Theorem C07_bytes_chain_base_from_input_sizes : forall ops regs_t, Inv regs_t -> chain_budget regs_t (map lift1 ops) < 67108864 ->
+  run_b (map enc regs_t) (map lift1 ops) = map enc (run regs_t ops).
+Proof. exact run_b_enc1_from_input_sizes. Qed.
+Print Assumptions C07_bytes_chain_base_from_input_sizes.
+Theorem C07_bytes_chain_keypaths_from_input_sizes : forall ops regs_t, Inv regs_t -> chain_budget regs_t (map lift2 ops) < 67108864 ->
+  run_b (map enc regs_t) (map lift2 ops) = map enc (run2 regs_t ops).
+Proof. exact run_b_enc2_from_input_sizes. Qed.
+Print Assumptions C07_bytes_chain_keypaths_from_input_sizes.
+
 Theorem C07_bytes_chain_canonical_from_input_sizes : forall ops regs_t, Inv regs_t -> chain_budget regs_t ops < 67108864 ->
   Forall (fun b => exists v, b = enc v /\ wf_shape v = true /\ wf_size v = true /\ top_ok v /\
                      parse_jsonb b = Ok (normalise v) /\ to_vec (normalise v) = b /\ is_jsonb b = true)
